@@ -249,3 +249,48 @@ def c03(tier):
               bound="all valid cells of res %d" % r)
         js += with_witness(j, tier=t) if r == 1 else [j]
     return js
+
+
+# ------------------------------------------------------------------------------------------- C07
+POLY_OUTSIDE = ("which cells are returned (needs every cell centre: trig; cellToBBox scale factors; the ray cast pointInside*: symbolic FP division - "
+                "probed, no verdict on any back end), both size bounds, the legacy flood fill's hashing. Mutants confined to the trig / estimate / ray-cast layer are not detected.")
+
+
+GEO_STUBS = {"h3Index": ["cellToLatLng", "cellToBoundary", "latLngToCell"], "polyfill": ["cellToBBox"], "bbox": ["bboxHexEstimate"], "algos": ["gridDisk", "_getEdgeHexagons"], "polygon": ["pointInsidePolygon"]}
+
+
+@prop("C07",
+      functions=["nextCell", "baseCellNumToCell", "bboxContains", "bboxOverlapsBBox", "bboxContainsBBox", "bboxNormalization", "normalizeLng", "bboxIsTransmeridian", "bboxFromGeoLoop", "validatePolygonFlags", "_iterInitPolygonCompact", "iterStepPolygonCompact", "polygonToCellsExperimental", "maxPolygonToCellsSizeExperimental", "polygonToCells", "maxPolygonToCellsSize"],
+      bounds={"quick": "nextCell: all valid cells of res 0-8,15; bbox algebra: all doubles in range under the representation invariant; bboxFromGeoLoop: all loops of 3 vertices; flags: all 2^32 flag words x all int resolutions; empty polygon: all modes x resolutions",
+              "thorough": "nextCell at all 16 resolutions; bboxFromGeoLoop with 4 vertices"},
+      outside=POLY_OUTSIDE,
+      assumptions=["bbox representation invariant east<west => east<0<west (proved for bboxFromGeoLoop output, assumed for cellToBBox output)"],
+      stubs=[])
+def c07(tier):
+    js = []
+    for r in ALLRES:
+        t = "quick" if r <= 8 or r == 15 else "thorough"
+        j = J("nextcell_r%d" % r, "C07_poly.c", ["-DNEXTCELL", "-DRES=%d" % r], unwind=r + 2, us={"harness.0": 17, "setH3Index.0": 2}, include_units=["polyfill"], est=10 + 5 * r, tier=t, bound="all valid cells of res %d" % r)
+        js += with_witness(j, tier=t) if r in (0, 3, 15) else [j]
+    js += with_witness(J("bbox_algebra", "C07_poly.c", ["-DBBOX"], unwind=2, est=30, bound="all in-range doubles (two boxes and a point)"))
+    js += with_witness(J("bboxloop_3", "C07_poly.c", ["-DBBOXLOOP", "-DNV=3"], unwind=5, est=30, bound="all loops of 3 in-range vertices"))
+    js += [J("bboxloop_4", "C07_poly.c", ["-DBBOXLOOP", "-DNV=4"], unwind=6, est=60, tier="thorough", bound="all loops of 4 in-range vertices")]
+    js += with_witness(J("flags", "C07_poly.c", ["-DFLAGS"], unwind=3, est=10, stubs=GEO_STUBS, bound="all 2^32 flag words x all int resolutions"))
+    js += with_witness(J("empty", "C07_poly.c", ["-DEMPTY"], unwind=5, est=10, stubs=GEO_STUBS, bound="all valid modes x resolutions"))
+    return js
+
+
+# ------------------------------------------------------------------------------------------- C15
+@prop("C15",
+      functions=["polygonToCellsExperimental", "validatePolygonFlags", "_iterInitPolygonCompact", "maxPolygonToCellsSizeExperimental", "bboxContains", "bboxOverlapsBBox", "bboxContainsBBox"],
+      bounds="capacity bound: every iterator sequence of <= 6 arbitrary cells x every capacity 0..6 x every final status; flags: all 2^32 words x all int resolutions; bbox pruning algebra as C07",
+      outside="which cells each containment mode returns, nesting of the modes and the size upper bound (cell boundaries: trig; lineCrossesLine / ray cast: symbolic FP multiplication and division - probed, no verdict)",
+      assumptions=["the iterator is replaced by an arbitrary finite sequence (over-approximates every real polygon iterator)"],
+      stubs=["iterInitPolygon, iterStepPolygon, iterDestroyPolygon -> arbitrary sequence (capacity job only)"])
+def c15(tier):
+    js = []
+    js += with_witness(J("capacity_4", "C15_bound.c", ["-DNSEQ=4"], unwind=8, est=10, stubs={"polyfill": ["iterInitPolygon", "iterStepPolygon", "iterDestroyPolygon"]}, bound="sequences <= 4 cells"))
+    js += [J("capacity_6", "C15_bound.c", ["-DNSEQ=6"], unwind=10, est=20, stubs={"polyfill": ["iterInitPolygon", "iterStepPolygon", "iterDestroyPolygon"]}, bound="sequences <= 6 cells")]
+    js += with_witness(J("flags", "C07_poly.c", ["-DFLAGS"], unwind=3, est=10, stubs=GEO_STUBS, bound="all 2^32 flag words x all int resolutions"))
+    js += with_witness(J("bbox_algebra", "C07_poly.c", ["-DBBOX"], unwind=2, est=30, bound="all in-range doubles"))
+    return js
